@@ -180,6 +180,20 @@ def finish(b, lhs, rhs, rng, tol=1e-9):
                 lines.append(f't grad {lf}'); idx.append(len(lines) - 1)
             sides[side] = idx
         pairs += list(zip(sides['l'], sides['r']))
+    # both sides inside ONE graph, summed in either order: every shared leaf (and every shared interior tensor) then receives
+    # contributions from both sides in one sweep, in both orders of arrival; the two totals must leave the same gradients
+    if lhs != rhs and io[-2] != 'rejected' and io[-1] != 'rejected':
+        n = b.n
+        tot = {}
+        for side, (x0, x1) in (('l', (lhs, rhs)), ('r', (rhs, lhs))):
+            lines.append(f't op add {x0},{x1}'); root = n; n += 1
+            for lf in b.leaves: lines.append(f't zero {lf}')
+            lines.append(f"t bw {root} {show_ints(sh)} {show_floats(g)}")
+            idx = []
+            for lf in b.leaves:
+                lines.append(f't grad {lf}'); idx.append(len(lines) - 1)
+            tot[side] = idx
+        pairs += list(zip(tot['l'], tot['r']))
     return {'lines': lines, 'pairs': pairs, 'tol': tol}
 
 
@@ -260,7 +274,7 @@ def gen_identity(rng, which, big=False):
             H, W = rng.randint(17, 20), rng.randint(17, 20); kh, kw = rng.pick([(17, 17), (16, 17), (H, W)])
             sh_, sw, ph, pw, dh, dw = rng.randint(1, 3), rng.randint(1, 3), 0, 0, 1, 1
         lh = (H + 2 * ph - dh * (kh - 1) - 1) // sh_ + 1; lw = (W + 2 * pw - dw * (kw - 1) - 1) // sw + 1
-        xv = V((n, c, H, W), 'distinct')
+        xv = V((n, c, H, W), 'distinct' if big or rng.chance(.6) else 'ties')      # ties: both sides must give the whole window gradient to the same (first) maximum
         if big: xv = sorted(xv)          # ascending in row-major order: the maximum of every window is its LAST element (position kh*kw - 1 >= 256)
         x = b.leaf((n, c, H, W), xv)
         name = 'max_pool2d' if which == 'maxpool' else 'avg_pool2d'
@@ -311,6 +325,30 @@ def gen_identity(rng, which, big=False):
         j = rng.randrange(k)
         c0 = b.op('clone', [xs[j]])
         return finish(b, outs[j], c0, rng)
+    if which in ('maxpool1d', 'avgpool1d'):
+        # the 1-d kernels through the one-row lift x[:, :, None, :]: unfold with kernel (1, k), then max / mean over the kernel axis
+        n, c = rng.randint(1, 2), rng.randint(1, 2)
+        while True:
+            Ln, k, s_, p, d = gen_ops.geom1(rng)
+            if p <= k // 2: break
+        lo = (Ln + 2 * p - d * (k - 1) - 1) // s_ + 1
+        x = b.leaf((n, c, Ln), V((n, c, Ln), rng.pick(['distinct', 'ties', 'ties'])))
+        l = b.op('max_pool1d' if which == 'maxpool1d' else 'avg_pool1d', [x], k, s_, p, d)
+        x4 = b.op('unsqueeze', [x], show_ints([2]))
+        pad = float('-inf') if which == 'maxpool1d' else 0.0
+        u = b.op('unfold', [x4], show_ints((1, k)), show_ints((1, d)), show_ints((1, s_)), show_ints((0, p)), fbits(pad))
+        u4 = b.op('reshape', [u], show_ints((n, c, k, lo)))
+        red = b.op('max', [u4], 2, 0) if which == 'maxpool1d' else b.op('mean', [u4], 'i:2', 0)
+        return finish(b, l, red, rng)
+    if which == 'unbind2':      # the round trip the other way: stack(unbind(x)) = x, on a tensor that is consumed by both sides
+        s = gen_ops.rshape(rng, 1, 3)
+        ax = rng.randrange(-len(s), len(s))
+        x = b.leaf(s, V(s))
+        outs = b.op('unbind', [x], ax, nout=s[ax % len(s)])
+        outs = outs if isinstance(outs, list) else [outs]
+        l = b.op('stack', outs, ax)
+        r = b.op('clone', [x])
+        return finish(b, l, r, rng)
     if which == 'flatten':
         s = gen_ops.rshape(rng, 1, 4)
         s0 = rng.randrange(len(s)); e0 = rng.randrange(s0, len(s))
@@ -454,7 +492,7 @@ def _module_side(c, io):
     return None
 
 
-IDS = ['ce', 'bcel', 'logsoftmax', 'linear', 'neuron', 'addmm', 'conv2d', 'maxpool', 'avgpool', 'sub', 'div', 'mean', 'stack', 'unbind',
+IDS = ['ce', 'bcel', 'logsoftmax', 'linear', 'neuron', 'addmm', 'conv2d', 'maxpool', 'avgpool', 'maxpool1d', 'avgpool1d', 'sub', 'div', 'mean', 'stack', 'unbind', 'unbind2',
        'flatten', 'movedim', 'seq', 'seq', 'neuronmod']
 
 
